@@ -273,6 +273,35 @@ def check_star_imports(repo, res, rule):
            'not stop the expansion of the following ones')
 
 
+    def exported():
+        # the exporting side: what a module offers to `from m import *` / `from m import name`
+        bl = m.name('len', (0, 0))
+        builtins = Obj(m.cls('BaseScope'), {'names': {'len': bl}}, 'builtins')
+        top = m.scope('SourceScope', builtins)
+        entry = m.flow('top', top)
+        always = m.name('always', (1, 0))
+        m.add(entry, always)
+        branch = m.flow('if', top, [entry])
+        other = m.flow('else', top, [entry])
+        maybe = m.name('maybe', (3, 4))             # if c: maybe = 1        (no else)
+        both1, both2 = m.name('both', (4, 4)), m.name('both', (6, 4))
+        m.add(branch, maybe)
+        m.add(branch, both1)
+        m.add(other, both2)
+        join = m.flow('join', top, [branch, other])
+        top.attrs['flow'] = join
+        exp = m.get(top, 'exported_names')
+        keys = set(str(k) for k in m.keys(exp))
+        kinds = {k: m.lookup(exp, k) for k in ('maybe', 'both')}
+        ok = {'always', 'maybe', 'both'} <= keys and 'len' not in keys and \
+            all(v is not None and getattr(v, 'cls', None) is not None and v.cls.name != 'MultiName' for v in kinds.values())
+        return ok, 'a module binding `always` unconditionally, `maybe` in one branch, `both` in both branches exports %s ' \
+            '(builtins such as len must not be exported; each exported entry is one binding, not a union)' % sorted(keys)
+    _guard(exported, res, rule, 'a module exports every name it may bind at top level', SCOPE,
+           'names bound on some paths only (if without else, try body, loop body) are bound at run time whenever that path is '
+           'taken: they must be offered to star imports and from-imports like unconditionally bound ones')
+
+
 def check_merged_dict(repo, res, rule):
     """MergedDict (the table type of every region): lookup prefers the earlier mapping, iteration yields each key once
     with the value lookup would give, membership and get agree with lookup, nested MergedDicts are flattened in order."""
@@ -695,7 +724,56 @@ def check_scopes(repo, res, rule_entry, rule_methods):
                 sorted(before or []), ov.oid, sorted(after or []), is_local, in_mod)
     _guard(nonlocal_route, res, rule_methods, 'a binding under a nonlocal declaration belongs to the enclosing function', SCOPE,
            'an assignment under `nonlocal` must not create a local of the declaring function nor a module-level name')
-    res.count(rule_entry + '_scenarios', 12, floor=12)
+    def class_global_stays_in_class_body():
+        # def outer(): x = 1; class C: global x; def m(self): return x   -> in m, x is a free variable owned by outer
+        top, tf, gx, gy = build()
+        outer = m.scope('FuncScope', top, top)
+        of = m.flow('func', outer)
+        outer.attrs['flow'] = of
+        ox = m.name('x', (4, 4))
+        m.add(of, ox)
+        cs = m.scope('ClassScope', outer, top)
+        cf = m.flow('class', cs)
+        cs.attrs['flow'] = cf
+        cs.attrs['globals'].add('x')
+        meth = m.scope('FuncScope', cs, top)
+        mf = m.flow('func', meth)
+        meth.attrs['flow'] = mf
+        x = m.describe(m.lookup(m.names_at(mf, (9, 12)), 'x'))
+        lam = m.scope('FuncScope', meth, top)
+        lf = m.flow('func', lam)
+        lam.attrs['flow'] = lf
+        xl = m.describe(m.lookup(m.names_at(lf, (9, 30)), 'x'))
+        return x == frozenset([ox.oid]) and xl == frozenset([ox.oid]), \
+            'class nested in a function declares `global x` in its body; a method (and a lambda inside it) reading x resolves to %s / %s, ' \
+            'must be the enclosing function\'s %s: a class body\'s declarations do not extend to its methods' % (
+                sorted(x or []), sorted(xl or []), ox.oid)
+    _guard(class_global_stays_in_class_body, res, rule_methods, 'a global declaration in a class body does not reach its methods', SCOPE,
+           'a `global` declaration affects only the block that contains it: methods resolve the name through the enclosing functions')
+    def class_body_global_read():
+        # def outer(): x = 1; class C: global x; y = x     -> the class body's x is the module's
+        top, tf, gx, gy = build()
+        outer = m.scope('FuncScope', top, top)
+        of = m.flow('func', outer)
+        outer.attrs['flow'] = of
+        ox = m.name('x', (4, 4))
+        ow = m.name('w', (5, 4))
+        m.add(of, ox)
+        m.add(of, ow)
+        cs = m.scope('ClassScope', outer, top)
+        cf = m.flow('class', cs)
+        cs.attrs['flow'] = cf
+        cs.attrs['globals'].add('x')
+        x = m.describe(m.lookup(m.names_at(cf, (8, 8)), 'x'))
+        w = m.describe(m.lookup(m.names_at(cf, (8, 8)), 'w'))
+        y = m.describe(m.lookup(m.names_at(cf, (8, 8)), 'y'))
+        return x == frozenset([gx.oid]) and w == frozenset([ow.oid]) and y == frozenset([gy.oid]), \
+            'body of a class nested in a function, declaring `global x`: x resolves to %s (must be the module-level %s, not the ' \
+            'enclosing function\'s %s); undeclared w -> %s (the enclosing function\'s), y -> %s (the module\'s)' % (
+                sorted(x or []), gx.oid, ox.oid, sorted(w or []), sorted(y or []))
+    _guard(class_body_global_read, res, rule_methods, 'a name declared global in a class body skips the enclosing functions', SCOPE,
+           'a read of a name the class body declares global resolves at module level')
+    res.count(rule_entry + '_scenarios', 14, floor=14)
 
 
 def check_name_scope(repo, res, rule):
